@@ -9,7 +9,7 @@ From Coq Require Import List NArith Bool.
 From SV Require Import Text.Str Text.Prog Text.Tokenizer.
 From SV Require Import KV.KvBase KV.KvLex KV.KvParse KV.KvSer KV.KvSym KV.KvParseProofs KV.KvRoundtrip KV.KvStrip
   KV.KvRefine KV.KvDelivery KV.KvExport KV.KvFlags KV.KvLoop KV.KvLoopRef KV.KvLoopProofs KV.KvLoopEquiv KV.KvLoopRoundtrip
-  KV.KvWriter KV.KvFlagProg KV.KvWProg KV.KvProperty KV.KvNoEsc KV.KvShift.
+  KV.KvWriter KV.KvFlagProg KV.KvWProg KV.KvProperty KV.KvNoEsc KV.KvShift KV.KvWHist KV.KvXProg KV.KvProperty5.
 Import ListNotations.
 Open Scope N_scope.
 
@@ -421,3 +421,95 @@ Theorem c01_property_hypotheses_satisfiable :
   delivery_ok ref_serpaths = true /\ flagprog_ok ref_flagprog = true /\
   wprog_pure (ref_wprog (PEsc FName)) = true /\ wprog_text_ok (ref_sercfg (PEsc FName)) (ref_wprog (PEsc FName)) = true.
 Proof. exact whole_property_hypotheses_satisfiable. Qed.
+
+(** Round 5 — histories of calls.  [_serialise] read over the state that outlives a call ([gen_hprog]: writes, which can
+    raise; the child loop; guard / mark / unmark / any other use of a module-level or class-level mutable object).  A
+    program without state instructions gives back the marks it found and its outcome does not depend on them ... *)
+Theorem writer_outcome_independent_of_leftover_state : forall H idf is_root other, hprog_stateless H = true ->
+  forall fuel M b k, hexec H idf is_root other fuel M b k = with_marks M (hexec H idf is_root other fuel [] b k).
+Proof. exact hexec_stateless. Qed.
+
+(** ... so after ANY history of earlier calls (each on any tree, completed or aborted by the file raising at any write,
+    each starting from what the one before left behind) a call runs exactly as in a fresh process. *)
+Theorem writer_history_independent : forall H idf is_root other, hprog_stateless H = true ->
+  forall calls fuel b k,
+  hexec H idf is_root other fuel (marks_after H idf is_root other calls []) b k = hexec H idf is_root other fuel [] b k.
+Proof. exact history_independent. Qed.
+
+Theorem writer_history_hypothesis_satisfiable :
+  hprog_stateless ref_hprog = true /\ same_skeleton ref_hprog (ref_wprog (PEsc FName)) = true /\
+  h_ok (hexec ref_hprog name_id (fun _ => false) (fun _ M => M) 3%nat [] 10%nat hist_witness) = true.
+Proof. exact (conj ref_hprog_stateless (conj (ref_same_skeleton (PEsc FName)) ref_hprog_completes)). Qed.
+
+(** The nearby wrong shape (seeded fault c01_7: cycle detection through a module-level set of the blocks being written,
+    un-marked after the children but not in a finally clause): rejected; and the witness -- the call completes in a
+    fresh process; a call whose file raises at the second write leaves the mark [97] behind; after it the same valid
+    tree can not be written any more (the guard raises), and the mark stays. *)
+Theorem writer_marks_left_behind_refuted :
+  hprog_stateless marking_hprog = false /\
+  let run := hexec marking_hprog name_id (fun _ => false) (fun _ M => M) in
+  let M1 := marks_after marking_hprog name_id (fun _ => false) (fun _ M => M) [(3%nat, 1%nat, hist_witness)] [] in
+  h_ok (run 3%nat [] 10%nat hist_witness) = true
+  /\ M1 = [97]
+  /\ h_ok (run 3%nat M1 10%nat hist_witness) = false
+  /\ h_marks (run 3%nat M1 10%nat hist_witness) = [97].
+Proof. exact (conj marking_writer_rejected marking_writer_refuted). Qed.
+
+(** Round 5 -- the deprecated generator export() as an instruction program [gen_xprog] (yields, the hand-on of the
+    children's lines, stores to / mutating calls on tree objects), as [_serialise] was given in round 4: a program without
+    store instructions leaves the tree as it was, whatever a store would do ... *)
+Theorem export_program_leaves_tree_unchanged : forall X E P upd, xprog_pure P = true ->
+  forall fuel w k, fst (xexec X E P upd fuel w k) = k.
+Proof. exact xexec_pure_tree. Qed.
+
+(** ... and a program whose yields are those of the structural reading [gen_expcfg] yields the export model's text. *)
+Theorem export_program_yields_model_text : forall X E P upd, xprog_text_ok X P = true ->
+  forall fuel k w, (kv_depth k <= fuel)%nat -> xexec X E P upd fuel w k = (k, exp_node X E w k).
+Proof. exact xexec_text. Qed.
+
+Theorem export_program_hypotheses_satisfiable :
+  xprog_pure (ref_xprog (PEsc FName)) = true /\
+  xprog_text_ok (ref_expcfg (PEsc FName)) (ref_xprog (PEsc FName)) = true.
+Proof. exact ref_xprog_ok. Qed.
+
+Theorem export_program_with_mutating_call_rejected : xprog_pure sorting_xprog = false.
+Proof. exact sorting_xprog_rejected. Qed.
+
+(** Round 5 -- THE WHOLE PROPERTY, for every call: [c01_property] together with history independence of the writer and
+    with the deprecated export() (text of its instruction program = text of the export model, tree unchanged, round
+    trip).  Thirteen hypotheses, all decidable conditions on objects regenerated from the source on every run. *)
+Theorem c01_property_all_calls : forall C E P T F TB ps fp W H X XP,
+  cfg_ok C = true -> esc_ok E = true -> pcfg_ok P = true -> loop_ok T F P = true -> tables_match TB E = true ->
+  delivery_ok ps = true -> flagprog_ok fp = true -> wprog_pure W = true -> wprog_text_ok C W = true ->
+  hprog_stateless H = true -> xcfg_ok X = true -> xprog_pure XP = true -> xprog_text_ok X XP = true ->
+  (* 1. the property for one call of serialise(), on every execution path (c01_property) *)
+  (forall casefold flags defaults O o x p,
+    po_single_block O = false -> ws_opts o = true ->
+    po_newline_keys O || obj_names_ok x = true -> po_newline_values O || obj_values_ok x = true ->
+    In p ps ->
+    let flag := flag_of fp casefold flags defaults in
+    exists txt,
+      (path_text C E o x p = Some txt /\ sp_ret_ok p = true) /\
+      (txt = ser_obj C E o x /\
+       forall upd fuel k cur, (kv_depth k <= fuel)%nat -> snd (wexec C E o W upd fuel cur k) = ser_node C E o cur k) /\
+      (forall upd fuel k cur, fst (wexec C E o W upd fuel cur k) = k) /\
+      parse_kv_tree T F P O E flag txt = POk (obj_doc x) /\
+      (forall cs n f, concat cs = txt -> (length txt < n)%nat -> (length txt < f)%nat ->
+         parse_kv_reader P O TB flag n f (chk_of_chunks cs) = parse_kv_tree T F P O E flag txt) /\
+      (forall o2, ws_opts o2 = true ->
+         lex_all E txt = lex_all E (ser_obj C E o2 x) /\ strip_blanks txt = obj_canon E x) /\
+      (forall s, flag s = read_flag casefold flags defaults s)) /\
+  (* 2. ... for every call, whatever the calls before it did or left undone *)
+  (forall idf is_root other calls fuel b k,
+     hexec H idf is_root other fuel (marks_after H idf is_root other calls []) b k = hexec H idf is_root other fuel [] b k) /\
+  (* 3. the deprecated writer: text of the program = text of the export model, tree unchanged, round trip *)
+  (forall upd fuel w k, (kv_depth k <= fuel)%nat -> xexec X E XP upd fuel w k = (k, exp_node X E w k)) /\
+  (forall flag_on O d, po_single_block O = false ->
+     po_newline_keys O || doc_names_ok d = true -> po_newline_values O || doc_values_ok d = true ->
+     parse_kv_opts P O E flag_on (export_doc X E d) = POk d).
+Proof. exact whole_property_all_calls. Qed.
+
+Theorem c01_property_all_calls_hypotheses_satisfiable :
+  hprog_stateless ref_hprog = true /\ xcfg_ok (ref_expcfg (PEsc FName)) = true /\
+  xprog_pure (ref_xprog (PEsc FName)) = true /\ xprog_text_ok (ref_expcfg (PEsc FName)) (ref_xprog (PEsc FName)) = true.
+Proof. exact whole_property_all_calls_hypotheses_satisfiable. Qed.
